@@ -509,7 +509,7 @@ class ClientRun:
             len(self.auto_nets), self.starts, len(self.plan), zlib.adler32(b''.join(self.plan)), 1 if self.handler else 0)
 
 
-def run_client(flags, wire_chunks, second_payload=None, listen='loop'):
+def run_client(flags, wire_chunks, second_payload=None, listen='loop', incl=None, excl=None):
     """The real `client._main` over `wire_chunks` (sync header + frames): handshake inside `_main`,
     then the Mux that `_main` created handles the remaining bytes (PING, ROUTES) with the real `onroutes`
     and the real `FirewallClient.start` on a recording pipe."""
@@ -531,7 +531,8 @@ def run_client(flags, wire_chunks, second_payload=None, listen='loop'):
     fw.argv = ['fw']
     fw.p = FwProc()
     fw.pfile = RecPipe()
-    fw.setup(list(FIXED_INCLUDE), list(FIXED_EXCLUDE), [], 0, 12300, 0, 0, False, None, None, '0x01')
+    fw.setup([tuple(x) for x in (FIXED_INCLUDE if incl is None else incl)],
+             [tuple(x) for x in (FIXED_EXCLUDE if excl is None else excl)], [], 0, 12300, 0, 0, False, None, None, '0x01')
     real_start = fw.start
     marks = []
 
@@ -825,6 +826,55 @@ def big_table(nroutes):
     return lines, intents
 
 
+PORT_CHOICES = [(0, 0), (443, 443), (8000, 8100), (1, 65535), (22, 22)]
+
+
+def user_plan(rng, exp):
+    """The user's own subnets, built to coincide with what the server is going to advertise: the same
+    address/width as an advertised route with all ports, one port or a port range; the same address with a
+    neighbouring width; advertised routes given as excludes; next to unrelated subnets."""
+    incl, excl = [], []
+    if rng.random() < 0.5:
+        incl.append(FIXED_INCLUDE[rng.randrange(len(FIXED_INCLUDE))])
+    for (ip, w) in rng.sample(exp, min(len(exp), rng.choice([1, 1, 2, 3]))):
+        r = rng.random()
+        if r < 0.7:
+            fp, lp = rng.choice(PORT_CHOICES)
+            incl.append((2, ip, w, fp, lp))
+            if rng.random() < 0.2:
+                incl.append((2, ip, w) + rng.choice(PORT_CHOICES))       # the same network twice, other ports
+        elif r < 0.85:
+            incl.append((2, ip, max(0, min(32, w + rng.choice([-1, 1]))), 0, 0))
+        else:
+            excl.append((2, ip, w) + rng.choice([(0, 0), (22, 22)]))
+    if rng.random() < 0.6:
+        excl.append(FIXED_EXCLUDE[0])
+    rng.shuffle(incl)
+    return incl, excl
+
+
+def plan_class(incl, excl, exp):
+    adv = set(exp)
+    inc_hit = [x for x in incl if (x[1], x[2]) in adv and x[0] == 2]
+    exc_hit = [x for x in excl if (x[1], x[2]) in adv and x[0] == 2]
+    if not inc_hit and not exc_hit:
+        return 'unrelated'
+    out = []
+    if any((x[3], x[4]) == (0, 0) for x in inc_hit):
+        out.append('include=route,all-ports')
+    if any((x[3], x[4]) != (0, 0) for x in inc_hit):
+        out.append('include=route,ports')
+    if exc_hit:
+        out.append('exclude=route')
+    return '+'.join(out)
+
+
+def plan_spec(incl, excl):
+    def enc(xs):
+        return ';'.join('%d/%s/%d/%d/%d' % tuple(x) for x in xs) or '-'
+    return 'I:%s X:%s' % (enc(incl), enc(excl))
+
+
 class CaseLog:
     def __init__(self, kind):
         self.kind = kind
@@ -842,7 +892,7 @@ def split_lines(output):
 
 
 def table_case(ctx, tool, lines, intents, flags, perline=True, label='table', verbose=0, real=False, regen=None,
-               listen=None):
+               listen=None, plan=None):
     """One routing table end to end.  `intents[i]` belongs to `lines[i]`.  `verbose`: server-side verbosity;
     `real`: the routing tool is a real child process on a real pipe; `regen`: how replay rebuilds a big table."""
     ssnet, client, server, helpers = _mods()
@@ -876,12 +926,19 @@ def table_case(ctx, tool, lines, intents, flags, perline=True, label='table', ve
     known_gap = [expected_of(it) for it in intents if it[0] == 'barehost' and expected_of(it)]
     if listen is None:
         listen = ctx.rng.choice(['loop', 'wild'])
+    # the user's own subnets (command line): fixed ones, or ones that coincide with what the server advertises
+    if plan is None:
+        plan = user_plan(ctx.rng, exp) if (exp and ctx.rng.random() < 0.4) else (FIXED_INCLUDE, FIXED_EXCLUDE)
+    incl, excl = [list(x) for x in plan[0]], [list(x) for x in plan[1]]
+    ctx.hist('user-plan:' + plan_class(incl, excl, exp))
+    end_cmd = 'end %s %s' % (flags, plan_spec(incl, excl))
     ctx.hist('listener:%s:v4=%s,v6=%s' % (listen, flags[0], flags[1]))
     tcase = dict(stream='table', tool=tool, flags=flags, listen=listen, verbose=verbose, real=real, regen=regen,
+                 incl=incl, excl=excl,
                  table=None if regen else hexb(output), strict=strict,
                  expect=None if regen else [list(e) for e in exp], gap=[list(e) for e in known_gap])
     if status[0] == 'hang':
-        log.add('end ' + flags, 'pkt hang')
+        log.add(end_cmd, 'pkt hang')
         log.ins.append(None)
         log.outs.append('client -')
         ctx.hist('delivery:hang')
@@ -908,8 +965,8 @@ def table_case(ctx, tool, lines, intents, flags, perline=True, label='table', ve
         # cut the wire at random places: the client's reads are segments
         cuts = sorted(set(ctx.rng.randrange(1, len(wire)) for _ in range(ctx.rng.choice([0, 1, 3])))) if len(wire) > 1 else []
         chunks = [wire[a:b] for a, b in zip([0] + cuts, cuts + [len(wire)])]
-        cr = run_client(flags, chunks, listen=listen)
-        log.add('end ' + flags, head)
+        cr = run_client(flags, chunks, listen=listen, incl=incl, excl=excl)
+        log.add(end_cmd, head)
         log.ins.append(None)                     # `end` answers with two lines
         log.outs.append('client ' + cr.show())
         delivery_oracle(ctx, tcase, exp, known_gap, strict, cr, len(routes_frames))
@@ -930,7 +987,7 @@ def table_case(ctx, tool, lines, intents, flags, perline=True, label='table', ve
                 p.restore()
                 sys.stderr = old_err
             pl = ''.join('%d,%s,%d\n' % r for r in rts).encode()
-            log.add('end ' + flags, 'pkt routes=%d len=%d adler=%d raise AssertionError' % (len(rts), len(pl), zlib.adler32(pl)))
+            log.add(end_cmd, 'pkt routes=%d len=%d adler=%d raise AssertionError' % (len(rts), len(pl), zlib.adler32(pl)))
             log.ins.append(None)
             log.outs.append('client -')
             big = len(pl) > 65535
@@ -945,7 +1002,7 @@ def table_case(ctx, tool, lines, intents, flags, perline=True, label='table', ve
                                    'process ends, the client never starts the firewall' % len(pl),
                           kind='input')
         else:
-            log.add('end ' + flags, 'pkt raise ' + name)
+            log.add(end_cmd, 'pkt raise ' + name)
             log.ins.append(None)
             log.outs.append('client -')
             if raised_line is None:
@@ -1005,7 +1062,7 @@ def plan_lines(nets):
     return [b'%d,%d,0,%s,%d,%d\n' % (f, w, ip.encode(), fp, lp) for (f, ip, w, fp, lp) in nets]
 
 
-def plan_problems(flags, exp, known_gap, strict, cr, nframes):
+def plan_problems(flags, exp, known_gap, strict, cr, nframes, incl=None, excl=None):
     """Every network the property says is advertised is in the plan the pipe received, once, before NSLIST."""
     v4, v6, auton = flags[0] == '1', flags[1] == '1', flags[2] == '1'
     problems = []
@@ -1022,17 +1079,26 @@ def plan_problems(flags, exp, known_gap, strict, cr, nframes):
         if not plan or plan[0] != b'ROUTES\n' or plan[-1] != b'NSLIST\n':
             problems.append('plan not framed by ROUTES/NSLIST: %r' % plan[:3])
         body = plan[1:-1]
-        fixed = plan_lines(FIXED_INCLUDE)
+        incl = [tuple(x) for x in (FIXED_INCLUDE if incl is None else incl)]
+        excl = [tuple(x) for x in (FIXED_EXCLUDE if excl is None else excl)]
+        fixed = plan_lines(incl)
         want = [b'2,%d,0,%s,0,0\n' % (w, ip.encode()) for (ip, w) in exp] if (auton and v4) else []
         gap = set(b'2,%d,0,%s,0,0\n' % (w, ip.encode()) for (ip, w) in known_gap)
-        auto = body[len(fixed):len(body) - len(FIXED_EXCLUDE)]
-        if body[:len(fixed)] != fixed or body[len(body) - len(FIXED_EXCLUDE):] != \
-                [b'%d,%d,1,%s,%d,%d\n' % (f, w, ip.encode(), fp, lp) for (f, ip, w, fp, lp) in FIXED_EXCLUDE]:
+        auto = body[len(fixed):len(body) - len(excl)]
+        if body[:len(fixed)] != fixed or body[len(body) - len(excl):] != \
+                [b'%d,%d,1,%s,%d,%d\n' % (f, w, ip.encode(), fp, lp) for (f, ip, w, fp, lp) in excl]:
             problems.append('configured subnets changed')
         want_nogap = [x for x in want if x not in gap]
+        # a network the user already includes with all ports is in the plan whether or not it is added again
+        covered = set(b'2,%d,0,%s,0,0\n' % (w, ip.encode()) for (f, ip, w, fp, lp) in incl if f == 2 and (fp, lp) == (0, 0))
         if strict:
-            if auto != want and auto != want_nogap:
-                problems.append('auto nets in plan differ: %d expected, %d present' % (len(want), len(auto)))
+            def norm(xs):
+                return [x for x in xs if x not in covered and x not in gap]
+            it2 = iter(want)
+            if norm(auto) != norm(want) or not all(any(x == y for y in it2) for x in auto):
+                missing = [x for x in norm(want) if x not in auto]
+                problems.append('auto nets in plan differ: %d expected, %d present%s'
+                                % (len(want), len(auto), ('; missing e.g. %r' % missing[0]) if missing else ''))
         else:
             it = iter(auto)
             if not all(any(x == y for y in it) for x in want_nogap):
@@ -1041,10 +1107,11 @@ def plan_problems(flags, exp, known_gap, strict, cr, nframes):
 
 
 def delivery_oracle(ctx, tcase, exp, known_gap, strict, cr, nframes):
-    problems = plan_problems(tcase['flags'], exp, known_gap, strict, cr, nframes)
+    problems = plan_problems(tcase['flags'], exp, known_gap, strict, cr, nframes, tcase.get('incl'), tcase.get('excl'))
     if problems:
         ctx.violation(KEY_DELIV, case=tcase,
-                      expected='plan = ROUTES, configured includes, %d advertised networks as 2,<w>,0,<ip>,0,0, excludes, then NSLIST; '
+                      expected='plan = ROUTES, the user\'s includes unchanged, then every one of the %d advertised networks as 2,<w>,0,<ip>,0,0 '
+                               '(whatever the user\'s own subnets are), the user\'s excludes, then NSLIST; '
                                'one fw.start() (server verbosity %d, routing tool %s; client listeners: real MultiListener, %s addresses, '
                                'IPv4 %s, IPv6 %s)'
                                % (len(exp), tcase['verbose'], 'a real child process' if tcase['real'] else 'in memory',
@@ -1159,6 +1226,12 @@ def gen_cases(ctx):
     for fl in ('111', '101', '011'):
         for li in ('loop', 'wild'):
             logs.append(table_case(ctx, 'i', t2, [('omit',), ('omit',), ('route', '192.168.1.0', 24)], fl, listen=li))
+    # the user's own subnets coincide with an advertised route: all ports, one port, a range, as an exclude, twice
+    for inc, exc in [([(2, '192.168.1.0', 24, 0, 0)], []), ([(2, '192.168.1.0', 24, 443, 443)], [(2, '127.0.0.1', 32, 0, 0)]),
+                     ([(2, '192.168.1.0', 24, 8000, 8100), (2, '10.0.0.0', 8, 0, 0)], []),
+                     ([], [(2, '192.168.1.0', 24, 0, 0)]), ([(2, '192.168.1.0', 25, 0, 0)], [(2, '192.168.1.0', 24, 22, 22)]),
+                     ([(2, '192.168.1.0', 24, 443, 443), (2, '192.168.1.0', 24, 80, 80)], [])]:
+        logs.append(table_case(ctx, 'i', t2, [('omit',), ('omit',), ('route', '192.168.1.0', 24)], '101', plan=(inc, exc)))
     logs.append(table_case(ctx, 'i', [], [], '101', real=True))
     logs.append(table_case(ctx, 'x', t2, [('omit',)] * 3, '101'))
     # every prefix length, with all host bits set, both tools
@@ -1323,11 +1396,11 @@ def replay(ctx, rep):
         if status[0] != 'sent':
             return True, how + ' '.join(status)
         nframes = wire.count(struct.pack('!ccHH', b'S', b'S', 0, ssnet.CMD_ROUTES))
-        cr = run_client(case['flags'], [wire], listen=case.get('listen') or 'loop')
+        cr = run_client(case['flags'], [wire], listen=case.get('listen') or 'loop', incl=case.get('incl'), excl=case.get('excl'))
         if case.get('expect') is None and not regen:
             return bool(cr.error) or cr.starts != 1, how + 'client: ' + cr.show()
         problems = plan_problems(case['flags'], exp, [tuple(e) for e in (case.get('gap') or [])],
-                                 bool(case.get('strict', True)), cr, 1)
+                                 bool(case.get('strict', True)), cr, 1, case.get('incl'), case.get('excl'))
         return bool(problems), how + ('; '.join(problems) if problems else 'plan holds all %d networks' % len(exp))
     if st == 'client2':
         cr = run_client(case['flags'], [SYNC, frame(ssnet, b'')], second_payload=common.unhex(case['payload']))
